@@ -25,7 +25,26 @@ def main():
         if a.replay:
             rc = mod.replay(a.replay)
         else:
-            rc = mod.run(tier, seed)
+            try:
+                rc = mod.run(tier, seed)
+            except Exception:
+                # the harness could not drive the implementation (an interface the tie relies on is gone or behaves
+                # differently): the correspondence no longer checks.  Never happens on the unchanged tree.
+                import hashlib
+                import json
+                import traceback
+                tb = traceback.format_exc()
+                sys.stderr.write(tb)
+                os.makedirs(common.REPLAYS, exist_ok=True)
+                path = os.path.join(common.REPLAYS, '%s-unproved-%s.json' % (a.pid, hashlib.sha256(tb.encode()).hexdigest()[:12]))
+                json.dump({'property': a.pid, 'seed': seed, 'tier': tier,
+                           'no_longer_checks': [{'kind': 'correspondence', 'where': 'the harness could not drive the implementation',
+                                                 'replay': {'trace': tb[-3000:]}}],
+                           'note': 'the correspondence harness raised while running against the current /repo; no input on '
+                                   'which the property statement itself fails was found'}, open(path, 'w'), indent=1)
+                print('VIOLATION property=%s replay=%s no-failing-input-found' % (a.pid, path))
+                print('%s FAIL tier=%s seed=%d (harness exception)' % (a.pid, tier, seed))
+                rc = 1
     sys.exit(rc)
 
 
